@@ -12,6 +12,7 @@ pub struct Tracer {
     next_id: u64,
     pub count: u64,
     pub only: Option<String>,
+    pub path: String,
 }
 
 pub fn bytes(b: &[u8]) -> Value {
@@ -27,7 +28,7 @@ pub fn word16(x: u32) -> Value {
 
 impl Tracer {
     pub fn new(path: &str) -> Tracer {
-        Tracer { out: BufWriter::new(File::create(path).expect("create trace")), next_id: 1, count: 0, only: None }
+        Tracer { out: BufWriter::new(File::create(path).expect("create trace")), next_id: 1, count: 0, only: None, path: path.to_string() }
     }
     /// Emit one event; `fields` must be a JSON object. `id`, `sess`, `op` are added.
     pub fn emit(&mut self, sess: &str, op: &str, fields: Value) -> u64 {
